@@ -41,6 +41,26 @@ out:
     ka[1] = kb[1] = '?'; cJSON_Delete(a); cJSON_Delete(b);
 }
 
+/* arrays nested as deep as the parser accepts, and deeper (trees built with the API, up to what cJSON_Duplicate copies): SemEq recurses on the value
+ * without any bound, so equal trees are equal and a different innermost value makes them different at every depth (C12; C11 for the duplicate) */
+static void deep_compare_cases(void)
+{
+    static const int D[] = { 999, 1000, 1001, 5000 }; size_t k;
+    for (k = 0; k < 4; k++) {
+        cJSON *t[3], *leaf[3], *cur, *n, *dup; int i, d, depth = D[k];
+        if (depth >= CJSON_CIRCULAR_LIMIT) continue;
+        al_case_begin(); VD.cases++;
+        if (!VD_TRY()) { vd_violation("comparing arrays nested %d deep: memory fault", depth); continue; }
+        for (i = 0; i < 3; i++) { t[i] = cur = cJSON_CreateArray(); for (d = 1; d < depth; d++) { n = cJSON_CreateArray(); cJSON_AddItemToArray(cur, n); cur = n; } leaf[i] = cJSON_CreateNumber(i == 2 ? 2 : 1); cJSON_AddItemToArray(cur, leaf[i]); }
+        if (!cJSON_Compare(t[0], t[1], 1) || !cJSON_Compare(t[1], t[0], 0)) vd_violation("two equal trees of arrays nested %d deep do not compare equal", depth);
+        if (cJSON_Compare(t[0], t[2], 1) || cJSON_Compare(t[2], t[0], 0)) vd_violation("trees of arrays nested %d deep that differ in the innermost value compare equal", depth);
+        dup = cJSON_Duplicate(t[0], 1);
+        if (dup && !cJSON_Compare(t[0], dup, 1)) vd_violation("a duplicate of arrays nested %d deep does not compare equal to its source", depth);
+        cJSON_Delete(dup);
+        for (i = 0; i < 3; i++) cJSON_Delete(t[i]);
+        VD_END(); vd_tick();
+    }
+}
 int vd_cmp_main(int argc, char **argv);
 int vd_cmp_main(int argc, char **argv)
 {
@@ -49,6 +69,7 @@ int vd_cmp_main(int argc, char **argv)
     for (k = 0; k < argc; k++) if (!strcmp(argv[k], "--stats") && k + 1 < argc) stats = argv[k + 1];
     hooks.malloc_fn = al_malloc; hooks.free_fn = al_free; cJSON_InitHooks(&hooks);
     vd_install_handlers();
+    deep_compare_cases();
     while ((len = getline(&line, &cap, stdin)) > 0 || (len < 0 && errno == EINTR && !feof(stdin) && (clearerr(stdin), 1))) {
         char *copy; jv *v; cJSON *a, *b; int cs, csv, exp, variant; char why[256] = "";
         if (len <= 0) continue;
